@@ -5,6 +5,9 @@
 //   main    : case index cycles through  big-matrix sequences (lock-step dense reference model over
 //             element families Real, float, Complex(+conjugate), Vec3(+Row3), SpatialVec, each with
 //             their negator<> variants), fixed-size Vec/Row/Mat/SymMat cases and scalar adaptor cases.
+//             Two input classes with known findings that can crash the process are generated only on
+//             request (--emptyviews 1: views with an offset into objects that hold no memory;
+//             --reshape1d 1: a Matrix_ handle whose storage is 1-d reshaped to a non 1-d size).
 //   tri     : symmetric/hermitian/triangular-committed Matrix_ (MatrixHelperRep_Tri.h), no handle cloning
 //   tricopy : the same plus deep copies of such matrices
 //
@@ -40,6 +43,7 @@ MX_GETRI(sgetri_, float) MX_GETRI(dgetri_, double) MX_GETRI(cgetri_, std::comple
 template <class B> static void runBig(Ctx& c, Rng& r, bool thorough) {
     mx::Engine<B> e(c, r);
     e.allowNullOffsetViews = c.args.getInt("emptyviews", 0) != 0;
+    e.allowReshape1d = c.args.getInt("reshape1d", 0) != 0;
     int nOps = thorough ? r.integer(30, 200) : r.integer(30, 110);
     e.runSequence(nOps);
 }
